@@ -313,6 +313,8 @@ def line_of(case: dict) -> str:
         return f'op=mk V={v} Y={y} MO={mo} D={d} H={h} MI={mi} S={s} US={us} TZ={"n" if tz is None else tz}{date}'
     if op == 'lex':
         return f'op=lex V={v} Y={case["y"]}'
+    if op == 'comp':
+        return f'op=comp A={vstr(case["a"])} V={v}'
     if op == 'pyord':
         return f'op=pyord N={case["n"]}'
     if op == 'durcmp':
@@ -328,7 +330,8 @@ def line_of(case: dict) -> str:
     if op == 'addym':
         return f'op=addym A={a} MONTHS={case["months"]}{date}'
     if op in ('diff', 'cmp'):
-        return f'op={op} A={a} B={vstr(case["b"])}'
+        itz = f' ITZ={case["itz"]}' if op == 'cmp' and case.get('itz') is not None else ''
+        return f'op={op} A={a} B={vstr(case["b"])}{itz}'
     if op == 'adjust':
         return f'op={"adjustdate" if is_date(ck) else "adjust"} A={a} TZ={"n" if case["tz2"] is None else case["tz2"]}'
     raise ValueError(op)
@@ -337,6 +340,12 @@ def line_of(case: dict) -> str:
 def parse_answer(ans: str):
     parts = dict(p.split('=', 1) for p in ans.split(' ') if '=' in p)
     return parts.get('model'), parts.get('spec'), parts.get('inK') == '1'
+
+
+def finding_tags(ans: str) -> list:
+    """ids of the listed findings whose trigger predicate (computed by the driver from the input) holds"""
+    parts = dict(p.split('=', 1) for p in ans.split(' ') if '=' in p)
+    return (['F11d'] if parts.get('inK') == '1' else []) + (['F11n'] if parts.get('inN') == '1' else [])
 
 
 # ------------------------------------------------------------------------------ generator
@@ -526,7 +535,7 @@ CORPUS = [
 
 
 # ----------------------------------------------------------------------- correspondence
-SITES = {'adjustdate': 'XPathToken.adjust_datetime (Date)', 'mk': 'AbstractDateTime.__init__/fromstring', 'lex': 'fromstring/iso_year/year-from-*',
+SITES = {'comp': 'year/month/day/hours/minutes/seconds/timezone-from-*', 'adjustdate': 'XPathToken.adjust_datetime (Date)', 'mk': 'AbstractDateTime.__init__/fromstring', 'lex': 'fromstring/iso_year/year-from-*',
          'todelta': 'AbstractDateTime.todelta', 'rt': 'fromdelta(todelta())', 'fromdelta': 'AbstractDateTime.fromdelta',
          'add': '_operation DayTimeDuration', 'sub': '_operation DayTimeDuration', 'addym': '_operation YearMonthDuration',
          'diff': '_operation AbstractDateTime', 'cmp': 'AbstractDateTime._compare', 'adjust': 'XPathToken.adjust_datetime',
@@ -600,6 +609,345 @@ def compare(run: Run, cases: list, record=True) -> list:
     return out
 
 
+# ------------------------------------------------------------------------------ histories
+# One Python value object goes through 2-4 calls; after every call (a) the result must equal the
+# model/spec computed from the ORIGINAL value and (b) the argument object must be observably unchanged.
+def fill_tz(v, itz):
+    return v if (v[4] is not None or itz is None) else v[:4] + (itz,)
+
+
+def hist_subcases(case: dict) -> list:
+    """per step: the single-operation case (on the original value) whose driver answer is the expectation,
+    or None when the step's result is not modelled (xs:time)"""
+    ck, a, itz = case['cls'], tuple(case['a']), case.get('itz')
+    out = []
+    for st in case['steps']:
+        k = st[0]
+        if ck == 't':
+            out.append(None)
+        elif k == 'adjust':
+            out.append({'op': 'adjust', 'cls': ck, 'a': a, 'tz2': st[1]})
+        elif k == 'adjust1':
+            out.append({'op': 'adjust', 'cls': ck, 'a': a, 'tz2': itz})
+        elif k == 'comp':
+            out.append({'op': 'comp', 'cls': ck, 'a': a})
+        elif k in ('add', 'sub'):
+            out.append({'op': k, 'cls': ck, 'a': a, 'dur': st[1]})
+        elif k == 'cmp':
+            # value comparisons: spec = order under the implicit timezone; the code ignores it (finding F11n)
+            out.append({'op': 'cmp', 'cls': ck, 'a': a, 'b': tuple(st[1]), 'itz': itz})
+        elif k == 'diff':
+            # arithmetic operators fill the implicit timezone into copies of the operands (get_operands)
+            out.append({'op': 'diff', 'cls': ck, 'a': fill_tz(a, itz), 'b': fill_tz(tuple(st[1]), itz)})
+        else:
+            raise ValueError(k)
+    return out
+
+
+def _tname(ck):
+    return 'time' if ck == 't' else 'date' if is_date(ck) else 'dateTime'
+
+
+def step_exprs(ck: str, st) -> list:
+    """XPath expressions of one step on the variable $d; their results are concatenated"""
+    k, T = st[0], _tname(ck)
+    if k == 'adjust':
+        arg = '()' if st[1] is None else "xs:dayTimeDuration('%s')" % dur_lex(st[1] * UM)
+        return ['adjust-%s-to-timezone($d, %s)' % (T, arg)]
+    if k == 'adjust1':
+        return ['adjust-%s-to-timezone($d)' % T]
+    if k == 'comp':
+        parts = {'dateTime': ['year', 'month', 'day', 'hours', 'minutes', 'seconds'], 'date': ['year', 'month', 'day'],
+                 'time': ['hours', 'minutes', 'seconds']}[T]
+        return ['%s-from-%s($d)' % (q, T) for q in parts] + ["(timezone-from-%s($d), 'none')[1]" % T]
+    if k in ('add', 'sub'):
+        return ["$d %s xs:dayTimeDuration('%s')" % ('+' if k == 'add' else '-', dur_lex(st[1]))]
+    if k == 'cmp':
+        return ['$d %s %s' % (o, xs_ctor(ck, tuple(st[1]))) for o in ('lt', 'le', 'eq', 'gt', 'ge')]
+    if k == 'diff':
+        return ['$d - %s' % xs_ctor(ck, tuple(st[1]))]
+    raise ValueError(k)
+
+
+def step_canon(ck: str, st, items: list) -> str:
+    """canonical text of the items one step produced (same shape as the driver's answer)"""
+    from elementpath.datatypes import DayTimeDuration, AbstractDateTime
+    k = st[0]
+    cls = None if ck == 't' else classes()[ck]
+    if k in ('adjust', 'adjust1', 'add', 'sub'):
+        if len(items) != 1 or not isinstance(items[0], AbstractDateTime):
+            return '?' + repr(items)[:80]
+        return canon(items[0], cls)
+    if k == 'cmp':
+        return ''.join('1' if x is True else '0' if x is False else '?' for x in items)
+    if k == 'diff':
+        return str(dur_us(items[0])) if len(items) == 1 and type(items[0]) is DayTimeDuration else '?' + repr(items)[:80]
+    if k == 'comp':
+        tzv = items[-1]
+        tzs = 'n' if tzv == 'none' else str(dur_us(tzv) // UM) if isinstance(tzv, DayTimeDuration) and dur_us(tzv) % UM == 0 else '?%r' % (tzv,)
+        nums = list(items[:-1])
+        if is_date(ck):
+            nums += [0, 0, 0]
+        elif ck == 't':
+            nums = [0, 0, 0] + nums
+        if len(nums) != 6:
+            return '?' + repr(items)[:80]
+        sec = nums[5]
+        nums[5] = int(Decimal(sec) * 10 ** 6)
+        return ';'.join(str(int(x)) for x in nums) + ';' + tzs
+    return '?'
+
+
+def obj_state(x) -> str:
+    try:
+        td = x.todelta()
+        tds = str((td.days * 86400 + td.seconds) * 10 ** 6 + td.microseconds)
+    except Exception as e:
+        tds = 'ERR:' + type(e).__name__
+    return f'{type(x).__name__}|{x}|{canon(x)}|todelta={tds}'
+
+
+def build_obj(ck, v):
+    if ck == 't':
+        from elementpath.datatypes import Time
+        s, u = divmod(v[3], 10 ** 6)
+        return Time(s // 3600, s // 60 % 60, s % 60, u, tzobj(v[4]))
+    return build(ck, v)
+
+
+_ROOT = []
+
+
+def hist_eval(ver: str, expr: str, variables, itz, xp3=False):
+    from elementpath import XPath2Parser, XPathContext
+    import xml.etree.ElementTree as ET
+    if not _ROOT:
+        _ROOT.append(ET.XML('<A/>'))
+    key = ('h3' if xp3 else 'h2', ver)
+    p = _PARSERS.get(key)
+    if p is None:
+        if xp3:
+            from elementpath.xpath3 import XPath3Parser
+            p = XPath3Parser(xsd_version=ver)
+        else:
+            p = XPath2Parser(xsd_version=ver)
+        _PARSERS[key] = p
+    ctx = XPathContext(root=_ROOT[0], variables=variables, timezone=tzobj(itz))
+    r = p.parse(expr).evaluate(ctx)
+    return r if isinstance(r, list) else [r]
+
+
+def run_hist(case: dict) -> list:
+    """per step: (canonical result, state of the argument object before, after); in the binding modes the
+    argument is only observable through the later results, so the states are ''"""
+    ck, a, itz, mode = case['cls'], tuple(case['a']), case.get('itz'), case.get('mode', 'var')
+    ver = '1.0' if ck == 't' else version_of(ck)
+    steps = case['steps']
+    out = []
+    if mode == 'var':
+        try:
+            obj = build_obj(ck, a)
+        except Exception as e:
+            return [(err_text(e), '', '')] * len(steps)
+        for st in steps:
+            before = obj_state(obj)
+            try:
+                items = []
+                for e in step_exprs(ck, st):
+                    items += hist_eval(ver, e, {'d': obj}, itz)
+                res = step_canon(ck, st, items)
+            except Exception as e:
+                res = err_text(e)
+            out.append((res, before, obj_state(obj)))
+        return out
+    # one expression: the value is bound once by `for` / `let` and used by every step
+    if ck == 't':
+        ctor = "xs:time('%s')" % lexical('dt10', (2000, 1, 1, a[3], a[4]))[11:]
+    else:
+        ctor = xs_ctor(ck, a)
+    exprs = [step_exprs(ck, st) for st in steps]
+    body = ', '.join(e for es in exprs for e in es)
+    expr = ('for $d in %s return (%s)' if mode == 'for' else 'let $d := %s return (%s)') % (ctor, body)
+    try:
+        items = hist_eval(ver, expr, None, itz, xp3=(mode == 'let'))
+    except Exception as e:
+        # an error of one step hides the others: fall back to per-prefix evaluation to locate it
+        res = []
+        for i in range(len(steps)):
+            pre = ', '.join(e for es in exprs[:i + 1] for e in es)
+            ex = ('for $d in %s return (%s)' if mode == 'for' else 'let $d := %s return (%s)') % (ctor, pre)
+            try:
+                it = hist_eval(ver, ex, None, itz, xp3=(mode == 'let'))
+                n0 = sum(len(es) for es in exprs[:i])
+                res.append((step_canon(ck, steps[i], it[n0:]), '', ''))
+            except Exception as e2:
+                res.append((err_text(e2), '', ''))
+        return res
+    pos = 0
+    for st, es in zip(steps, exprs):
+        out.append((step_canon(ck, st, items[pos:pos + len(es)]), '', ''))
+        pos += len(es)
+    return out
+
+
+def compare_hist(run: Run, cases: list, record=True) -> list:
+    subs = [hist_subcases(c) for c in cases]
+    flat = [sc for ss in subs for sc in ss if sc is not None]
+    answers = iter(run.driver('C11', [line_of(sc) for sc in flat]))
+    out = []
+    st = run.stats
+    for case, ss in zip(cases, subs):
+        results = run_hist(case)
+        if record:
+            st.case({'hist': case}, nontrivial=True)
+            st.count('op:history')
+            st.count('history:mode=' + case.get('mode', 'var'))
+            st.count('history:class=' + case['cls'])
+            st.count('history:steps=%d' % len(case['steps']))
+            if case.get('itz') is not None:
+                st.count('history:implicit-timezone')
+        failed = False
+        for k, (sc, (res, before, after)) in enumerate(zip(ss, results)):
+            # with `variables=` every call is separate, so the prefix up to the failing call is the failing
+            # history; inside one for/let expression later steps can act on earlier results: keep it whole
+            prefix = dict(case, steps=[list(x) for x in case['steps'][:k + 1]]) if case.get('mode', 'var') == 'var' \
+                else dict(case, failing_step=k)
+            if record:
+                st.count('history-step:' + case['steps'][k][0])
+            if sc is not None:
+                ans = next(answers)
+                if failed:
+                    continue
+                model, spec, ink = parse_answer(ans)
+                tags = finding_tags(ans)
+                if record and 'F11n' in tags:
+                    st.count('inN(F11n)')
+                if res != spec:
+                    d = Disagreement(prefix, res, model, spec, what='history-result:' + case['steps'][k][0],
+                                     site='value reused after ' + ','.join(x[0] for x in case['steps'][:k]) or 'first call', tags=tags)
+                    run.disagree(d)
+                    out.append(d)
+                    failed = not tags
+                    if tags and res != model:
+                        d = Disagreement(prefix, res, model, None, what='history-result-model', site=SITES.get(sc['op'], ''))
+                        run.disagree(d)
+                        out.append(d)
+                elif res != model:
+                    d = Disagreement(prefix, res, model, None, what='history-result-model', site=SITES.get(sc['op'], ''))
+                    run.disagree(d)
+                    out.append(d)
+            if failed:
+                continue
+            if before != after:
+                # the argument object must denote the same value with the same components after ANY call
+                d = Disagreement(prefix, 'argument after: ' + after, 'argument before: ' + before, 'argument before: ' + before,
+                                 what='history-argument-mutated:' + case['steps'][k][0], site='argument object of ' + case['steps'][k][0])
+                run.disagree(d)
+                out.append(d)
+                failed = True
+    return out
+
+
+HIST_TZ2 = [None, None, 0, -600, 600, 840, -840, 330]
+
+
+def gen_hist(rng, ck=None, mode=None):
+    ck = ck or rng.choice(['dt10', 'dt11', 'dt10', 'd10', 'd11', 't'])
+    mode = mode or ('var' if ck == 't' else rng.choice(['var', 'var', 'for', 'let']))
+    vk = 'dt10' if ck == 't' else ck
+    y = rng.choice([2002, 2002, 1, 9999, -1, -5, 10000, 12000, -10001, rng.randint(1, 9999)])
+    a = astro(y)
+    m = rng.choice([1, 2, 3, 12])
+    d = min(rng.choice([1, 7, 28, 31]), mlen(a, m))
+    us = 0 if is_date(vk) and ck != 't' else rng.choice([0, 36000 * 10 ** 6, 45015 * 10 ** 6 + 500000, US - 1])
+    tz = rng.choice([None, None, None, 0, -420, 330, 840, -840])
+    v = (2000, 1, 1, us, tz) if ck == 't' else (y, m, d, us, tz)
+    itz = rng.choice([None, None, -300, 0, 840])
+    steps = []
+    for _ in range(rng.randint(2, 4)):
+        r = rng.random()
+        if r < 0.45:
+            steps.append(['adjust', rng.choice(HIST_TZ2)])
+        elif r < 0.55:
+            steps.append(['adjust1'])
+        elif r < 0.75:
+            steps.append(['comp'])
+        elif r < 0.85 or ck == 't':
+            steps.append([rng.choice(['add', 'sub']), rng.choice([10 ** 6, US, 3600 * 10 ** 6, 0])])
+        else:
+            w = of_local(local_us(v) + rng.choice([-1, 1]) * rng.randrange(0, 30 * 3600 * 10 ** 6), rng.choice([None, 0, 600, tz]))
+            if is_date(vk):
+                w = w[:3] + (0,) + w[4:]
+            steps.append([rng.choice(['cmp', 'diff']), list(w)])
+    return {'op': 'hist', 'cls': ck, 'mode': mode, 'a': list(v), 'itz': itz, 'steps': steps}
+
+
+HIST_CORPUS = [
+    # the seeded change: `copy(item)` dropped in adjust_datetime -> the caller's value gets the timezone
+    {'op': 'hist', 'cls': 'dt10', 'mode': 'var', 'a': [2002, 3, 7, 36000 * 10 ** 6, None], 'itz': None,
+     'steps': [['adjust', -600], ['adjust', 0]]},
+    {'op': 'hist', 'cls': 'dt10', 'mode': 'for', 'a': [2002, 3, 7, 36000 * 10 ** 6, None], 'itz': None,
+     'steps': [['adjust', -600], ['comp'], ['adjust', 0]]},
+    {'op': 'hist', 'cls': 'dt11', 'mode': 'let', 'a': [2002, 3, 7, 36000 * 10 ** 6, -420], 'itz': None,
+     'steps': [['adjust', None], ['comp'], ['adjust', 600]]},
+    {'op': 'hist', 'cls': 'd10', 'mode': 'var', 'a': [2002, 3, 7, 0, -420], 'itz': -300,
+     'steps': [['adjust', 600], ['comp'], ['adjust1'], ['cmp', [2002, 3, 7, 0, None]]]},
+    {'op': 'hist', 'cls': 'd11', 'mode': 'for', 'a': [2002, 3, 7, 0, None], 'itz': None,
+     'steps': [['adjust', -600], ['comp']]},
+    {'op': 'hist', 'cls': 't', 'mode': 'var', 'a': [2000, 1, 1, 36000 * 10 ** 6, None], 'itz': None,
+     'steps': [['adjust', -600], ['comp'], ['adjust', 0]]},
+    {'op': 'hist', 'cls': 'dt10', 'mode': 'var', 'a': [-5, 2, 29, 45015 * 10 ** 6, 330], 'itz': 0,
+     'steps': [['add', US], ['cmp', [-5, 3, 1, 0, None]], ['adjust1'], ['diff', [-5, 2, 28, 0, 0]]]},
+]
+
+
+def hist_search_cases() -> list:
+    """every ordered pair of steps from a small alphabet, three binding modes, values with / without timezone"""
+    alpha = [['adjust', None], ['adjust', -600], ['adjust', 0], ['adjust', 840], ['adjust1'], ['comp'], ['add', 10 ** 6]]
+    out = []
+    for ck, vals in (('dt10', [(2002, 3, 7, 36000 * 10 ** 6, None), (2002, 3, 7, 36000 * 10 ** 6, -420), (-1, 12, 31, US - 1, 840)]),
+                     ('dt11', [(10000, 1, 1, 0, None), (10000, 1, 1, 0, -840)]),
+                     ('d10', [(2002, 3, 7, 0, None), (2002, 3, 7, 0, -420)]),
+                     ('d11', [(-1, 3, 1, 0, 840)]),
+                     ('t', [(2000, 1, 1, 36000 * 10 ** 6, None), (2000, 1, 1, 36000 * 10 ** 6, 60)])):
+        for v in vals:
+            for s1 in alpha:
+                for s2 in alpha:
+                    for mode in (('var',) if ck == 't' else ('var', 'for', 'let')):
+                        for itz in (None, -300):
+                            out.append({'op': 'hist', 'cls': ck, 'mode': mode, 'a': list(v), 'itz': itz, 'steps': [s1, s2]})
+    return out
+
+
+def shrink_hist(d: Disagreement) -> Disagreement:
+    """drop steps of the history while the same kind of failure remains"""
+    case = d.case
+    cur = dict(case)
+    kind = d.what.split(':')[0]
+
+    def failing(c):
+        sub = Run(PROP, 'quick', 0)
+        ds = compare_hist(sub, [c], record=False)
+        return next((x for x in ds if x.what.split(':')[0] == kind and not x.tags), None)
+    best = d
+    changed = True
+    while changed and len(cur['steps']) > 1:
+        changed = False
+        for i in range(len(cur['steps']) - 1):
+            c = dict(cur, steps=cur['steps'][:i] + cur['steps'][i + 1:])
+            f = failing(c)
+            if f is not None:
+                cur, best, changed = dict(f.case), f, True
+                break
+    for simpler in ({'itz': None}, {'mode': 'var'}):
+        c = dict(cur, **simpler)
+        if c != cur:
+            f = failing(c)
+            if f is not None:
+                cur, best = dict(f.case), f
+    return best
+
+
 def jsonable(c):
     return json.loads(json.dumps(c))
 
@@ -613,11 +961,17 @@ def correspond(run: Run) -> None:
         'year 0), todelta, fromdelta, fromdelta∘todelta, ± dayTimeDuration (durations chosen to land on year/era '
         'boundaries, leap days, 1st of January with a time part), ± yearMonthDuration (incl. era crossings), '
         'difference, the five comparisons, adjust-dateTime-to-timezone, lexical year numbering (string(), '
-        'year-from-*), duration comparison, CPython date.fromordinal; classes DateTime/DateTime10/Date/Date10; 30% through '
+        'year-from-*), duration comparison, CPython date.fromordinal; plus HISTORIES: one value object (passed via variables=, or bound '
+        'by for/let) goes through 2-4 adjust-*-to-timezone / component-extraction / ± duration / comparison / difference calls, each '
+        'result compared with model and spec computed from the ORIGINAL value and the argument object compared with its state before '
+        'the call (xs:dateTime, xs:date, xs:time; with and without implicit timezone); classes DateTime/DateTime10/Date/Date10; 30% through '
         'XPath expressions, 70% through the datatypes API; years ±{1..5, 99..101, 399..401, 1582, 9996..10004, 12000, '
         '2.7M (timedelta edge), 2^31-1, random}. distinct = distinct protocol lines')
     for i in range(0, len(cases), 20000):
         compare(run, cases[i:i + 20000])
+    hists = [dict(c) for c in HIST_CORPUS] + [gen_hist(rng) for _ in range(run.scale(4000, 40000))]
+    for i in range(0, len(hists), 5000):
+        compare_hist(run, hists[i:i + 5000])
 
 
 def search(run: Run):
@@ -651,6 +1005,9 @@ def search(run: Run):
     try:
         for i in range(0, len(cases), 20000):
             compare(sub, cases[i:i + 20000], record=False)
+        hs = hist_search_cases()
+        compare_hist(sub, hs, record=False)
+        cases = cases + hs
         found = sub.disagreements
         how = 'Lean spec'
     except Exception as e:   # driver not buildable: python reference as the oracle
@@ -702,6 +1059,8 @@ def shrink(d: Disagreement) -> Disagreement:
     reference in the same way (the reference is only used to keep the failure, the reported spec value
     is recomputed by the Lean driver at the end)"""
     case = d.case
+    if isinstance(case, dict) and case.get('op') == 'hist':
+        return shrink_hist(d)
     if not isinstance(case, dict) or py_expected(case) is None:
         return d
 
@@ -770,6 +1129,7 @@ def body(run: Run) -> int:
         'the XSD/F&O reading in EPV/Spec/Timeline.lean (astronomical years, instants in µs, implicit timezone Z)']
     run.assumptions += [
         'years within ±2^31 and durations within ±2^62 s (constructor limits of the library, accepted)',
+        'known finding F11n: value comparisons ignore the implicit timezone of the dynamic context (UTC is used); '
         'known finding F11d: timeline offsets beyond the timedelta range (|days| > 999999999, |year| ≳ 2.7 million) '
         'raise OverflowError (FODT0001 through XPath); theorems carry the hypothesis TdOk',
         'adjust-time-to-timezone, format-dateTime, the system-clock implicit timezone, gYear..gDay and xs:time '
@@ -778,6 +1138,10 @@ def body(run: Run) -> int:
         data = json.loads(Path(run.replay).read_text())
         fi = data.get('failing_input') or {}
         case = fi.get('case')
+        if isinstance(case, dict) and case.get('op') == 'hist':
+            ds = compare_hist(run, [case])
+            print('replay:', json.dumps({'case': case, 'steps': run_hist(case), 'disagreements': [x.to_json() for x in ds]}, default=str))
+            return 1 if ds else 0
         if isinstance(case, dict):
             for k in ('a', 'b'):
                 if k in case:
